@@ -362,23 +362,42 @@ func function(fn *ssa.Function) J {
 func main() {
 	out := flag.String("o", "ir", "output dir")
 	dir := flag.String("dir", "/repo", "module dir")
+	overlay := flag.String("overlay", "", "JSON file {\"Replace\": {virtual path: real path}} of extra source files (pure-Go stand-ins for cgo-only files)")
 	flag.Parse()
 	cfg := &packages.Config{
 		Mode: packages.NeedName | packages.NeedFiles | packages.NeedCompiledGoFiles | packages.NeedImports |
 			packages.NeedTypes | packages.NeedTypesSizes | packages.NeedSyntax | packages.NeedTypesInfo,
 		Dir: *dir,
 	}
+	if *overlay != "" {
+		raw, err := os.ReadFile(*overlay)
+		if err != nil {
+			panic(err)
+		}
+		var ov struct{ Replace map[string]string }
+		if err := json.Unmarshal(raw, &ov); err != nil {
+			panic(err)
+		}
+		cfg.Overlay = map[string][]byte{}
+		for virt, real := range ov.Replace {
+			b, err := os.ReadFile(real)
+			if err != nil {
+				panic(err)
+			}
+			cfg.Overlay[virt] = b
+		}
+	}
 	pkgs, err := packages.Load(cfg, flag.Args()...)
 	if err != nil {
 		panic(err)
 	}
 	bad := false
-	for _, p := range pkgs {
+	packages.Visit(pkgs, nil, func(p *packages.Package) {
 		for _, e := range p.Errors {
 			fmt.Fprintln(os.Stderr, "ERR", p.PkgPath, e)
 			bad = true
 		}
-	}
+	})
 	if bad {
 		os.Exit(2)
 	}
